@@ -280,3 +280,20 @@ func SetMapOrder(ch Chooser) {
 	}
 	mapOrder.Store(&ch)
 }
+
+// Pair is one entry of a map snapshot (see MapPairs).
+type Pair[K comparable, V any] struct {
+	K K
+	V V
+}
+
+// MapPairs is MapKeys for loops whose range operand is a call (evaluated once): the entries of the
+// returned map in MapKeys order.
+func MapPairs[K comparable, V any](site string, m map[K]V) []Pair[K, V] {
+	keys := MapKeys(site, m)
+	out := make([]Pair[K, V], 0, len(keys))
+	for _, k := range keys {
+		out = append(out, Pair[K, V]{k, m[k]})
+	}
+	return out
+}
